@@ -107,10 +107,42 @@ func (s *SequencerSyncer) handlePotentialReorg(ctx context.Context, header *type
 	}
 
 	numReorgedBlocks := getNumReorgedBlocks(&syncedUntil, header)
+	if numReorgedBlocks == 0 {
+		numReorgedBlocks, err = s.getNumReorgedBlocksAfterGap(ctx, &syncedUntil, header)
+		if err != nil {
+			return err
+		}
+	}
 	if numReorgedBlocks > 0 {
 		return s.resetSyncStatus(ctx, numReorgedBlocks)
 	}
 	return nil
+}
+
+// getNumReorgedBlocksAfterGap covers the case getNumReorgedBlocks cannot decide: the new head is
+// not the direct child of the synced block (blocks were skipped, or the sync of the direct child
+// failed), so its parent hash says nothing about the synced block. In this case the node is asked
+// whether the synced block is still part of the canonical chain.
+func (s *SequencerSyncer) getNumReorgedBlocksAfterGap(
+	ctx context.Context,
+	syncedUntil *database.TransactionSubmittedEventsSyncedUntil,
+	header *types.Header,
+) (int, error) {
+	if len(syncedUntil.BlockHash) == 0 || header.Number.Int64() <= syncedUntil.BlockNumber+1 {
+		return 0, nil
+	}
+	canonical, err := s.ExecutionClient.HeaderByNumber(ctx, big.NewInt(syncedUntil.BlockNumber))
+	if err != nil {
+		return 0, errors.Wrap(err, "failed to get header of synced block in order to check for a reorg")
+	}
+	if bytes.Equal(canonical.Hash().Bytes(), syncedUntil.BlockHash) {
+		return 0, nil
+	}
+	depth := AssumedReorgDepth
+	if syncedUntil.BlockNumber < int64(depth) {
+		return int(syncedUntil.BlockNumber), nil
+	}
+	return depth, nil
 }
 
 // Sync fetches transaction submitted events from the sequencer contract and inserts them into the
